@@ -1095,6 +1095,22 @@ def gen_C16(seed, tier):
     return cases
 
 
+
+# ---------------------------------------------------------------------------
+# C19 — every public operation once over, with the archetype scalars
+# ---------------------------------------------------------------------------
+def gen_C19(seed, tier):
+    rng = random.Random(seed + 19)
+    cases = []
+    cases += gen_C10(seed + 191, 'quick', "C19h")[:6 if tier == 'quick' else 24]
+    cases += gen_C05(seed + 192, 'quick')[:6 if tier == 'quick' else 30]
+    cases += [c for c in gen_C06(seed + 193, 'quick')][:4 if tier == 'quick' else 16]
+    cases += gen_C01(seed + 194, 'quick')[:6 if tier == 'quick' else 30]
+    cases += gen_C12(seed + 195, 'quick')[:4 if tier == 'quick' else 16]
+    cases += gen_C02(seed + 196, 'quick')[:3]
+    return cases
+
+
 # ---------------------------------------------------------------------------
 # registry
 # ---------------------------------------------------------------------------
@@ -1155,7 +1171,8 @@ PROPS = {
               "random histories and every placement of factor window against operand window for the spline operator, plus checked "
               "accessors at extreme indices, all executed under AddressSanitizer + UndefinedBehaviorSanitizer + libstdc++ "
               "assertions; a sanitizer report on an input for which the model returns Ok/Throw is a violation",
-              variants={'quick': ['asan'], 'thorough': ['asan', 'asanchecks']}),
+              variants={'quick': ['asan'], 'thorough': ['asan', 'asanchecks']}, scan=True,
+              trusted_extra=["gen/scan_sites.py: regular-expression scanner that regenerates the table of unchecked accesses (coq/gen/Sites.v) from /repo's headers on every run; Proofs_Sites.sites_covered is re-proved by vm_compute against it"]),
     'C11': _p(gen_C11, nontrivial_C11,
               "grids: duplicate/descent/outlier at every position of sequences of length 0..5 (quick) / 0..6; supports: every index "
               "pair from 0..n+2 and 2^64-1 on grids of 2..4 / 2..5 points; splines: every coefficient count against every window; "
@@ -1172,6 +1189,25 @@ PROPS = {
               "all ordered pairs of windows on a 5-point grid (second operand on a distinct-but-equal grid object), coefficient "
               "patterns with zero pieces (probability 0.3-0.4), identical coefficients on identical windows: isZero, checkOverlap both "
               "ways, ==/!= both ways, copy equality, product and its isZero", exhaustive=True),
+    'C18': dict(gen=lambda seed, tier: [], nontrivial=lambda t: True, level='other', scan=True,
+                variants={'quick': [], 'thorough': []}, extra_stages=[stages.stage_threads],
+                rule="2, 3, 4, 8, 16 threads x 2 (quick) / 6 repetitions x 2 / 6 seeds x {double, long double}: every thread evaluates, copies, "
+                     "adds, subtracts, multiplies, applies operators (incl. a shared spline factor), integrates (scalar product, Hamiltonian "
+                     "form, linear form), calls isZero/checkOverlap/union/intersection, copies and destroys grid handles, regenerates a basis "
+                     "from a shared const generator; every result compared bit for bit with a sequential run; plain -O2 and -fsanitize=thread",
+                explanation="PARTIAL. Proved: under every interleaving of whole operations each thread's results and final private state equal "
+                            "its solo run and shared const objects never change (Proofs_Threads.v); the inventory of constructs that could "
+                            "introduce shared mutable state, regenerated from the headers on every run, is fully classified "
+                            "(Proofs_Sites.shared_inventory_safe). Not provable in the model: absence of data races inside one operation "
+                            "(memory model, reference counting) - ThreadSanitizer can only find races, never exclude them."),
+    'C19': _p(gen_C19, nontrivial_hist,
+              "a cross-section of every check's cases (histories, expression catalogue, forms, generator, interpolation, evaluation) "
+              "compiled with the archetype scalar Arch (exact rationals; only default/copy construction, explicit construction from "
+              "integers, + - * / with compound forms, unary minus, six comparisons; static_asserts exclude implicit conversions and "
+              "numeric_limits) and compared exactly with the model at Qc; the same program instantiated with the second archetype "
+              "WrapD (the same interface over double) and with plain double must print bit-identical results; plus explicit "
+              "instantiation of every core class template with both archetypes (compile = check)",
+              extra_stages=[stages.stage_archetypes]),
     'C20': dict(gen=lambda seed, tier: [], nontrivial=lambda t: True, level='other',
                 variants={'quick': [], 'thorough': []}, extra_stages=[stages.stage_examples],
                 rule="examples/*.cpp of the current tree compiled with -D_GLIBCXX_DEBUG and ASan/UBSan (Eigen assertions on): diffusion with "
@@ -1194,6 +1230,14 @@ PROPS = {
                             "DIFFERING_GRIDS on different grids. Validated, not proved: that Boost's Gauss-Legendre tables are such a rule "
                             "(irrational nodes, floating tables) - checked numerically against the exact analytic value."),
     'C16': dict(gen=gen_C16, nontrivial=lambda t: t.split()[0] not in ('GridNew', 'SupNew'), level='other',
+                allowed_axioms=['ClassicalDedekindReals.sig_forall_dec', 'ClassicalDedekindReals.sig_not_dec',
+                                'FunctionalExtensionality.functional_extensionality_dep', 'Classical_Prop.classic'],
+                assumes=["standard-library axioms used by the kernel-bound theorems of Properties_C16.v (Print Assumptions): "
+                         "ClassicalDedekindReals.sig_forall_dec, ClassicalDedekindReals.sig_not_dec, "
+                         "FunctionalExtensionality.functional_extensionality_dep (real numbers), Classical_Prop.classic (through Flocq)",
+                         "standard model of floating-point arithmetic: rnd x = x(1+d), |d| <= u - a section hypothesis, discharged for "
+                         "round-to-nearest-even with 53 bits and unbounded exponent (Flocq FLX) in C16_binary64_rounding_model; overflow "
+                         "and underflow are excluded by the well-scaled input range"],
                 variants={'quick': ['plain'], 'thorough': ['plain']}, extra_stages=[stages.stage_fp_round],
                 rule="well-scaled exactly representable inputs (grid points multiples of 1/8 in [-8, 8], spacing >= 1/8, orders <= 6, "
                      "dyadic coefficients): B-spline generation from knots with repeats, evaluation, + - * scalar forms, operator "
